@@ -1017,6 +1017,446 @@ def corr_e2e(ctx, res):
                  "harness_restarts": restarts})
     res.distribution["e2e"] = dist
     res.samples.append({"c11e2e": lines[0][:400], "impl": hout[0][:400]})
+    ctx.e2e_runs = (cases, hout)
+
+
+# ------------------------------------------------------------------------------------------------
+# stream `clientx`: the EXTENDED BuildSystem client model (Model/BuildSystemClientX.lean, driver mode c08xclean: commands with
+# discovered dependencies and own failures as an engine `Program`; Props/C08X.lean) against the real tool
+#   (a) every build of the c11e2e histories in which the command ran: how its execution ends and the keys it hands to the engine,
+#       computed by the client model from the dependency files' BYTES (absDepsFile -> processDeps -> runX), vs the real callbacks;
+#   (b) histories of compile-like commands (real ShellCommand, deps files written by the commands themselves as a function of the
+#       source they read, headers edited / deleted, commands exiting non-zero, deps files missing / malformed) through an in-process
+#       keep-going client: the value kind and the dependency list the engine RECORDS in build.db for every command, and the contents of
+#       every output, vs the model's clean evaluation (`cleanRunX` / `cleanEvalX`); plus the property itself (re-run after a change of
+#       a recorded discovered path, no re-run otherwise, failed commands retried).
+# ------------------------------------------------------------------------------------------------
+CX_MOD = 1000000007
+CX_BASE_T = 1600000000
+CX_HEADERS = ["inc/h0.h", "inc/h1.h", "inc/h2.h"]
+CX_SETS = {0: (["inc/h0.h"], []), 1: (["inc/h0.h", "inc/h1.h"], ["inc/h2.h"]), 2: (["inc/h2.h"], ["inc/h1.h"])}
+
+
+def cx_mix(h, v):
+    return (h * 131 + v + 7) % CX_MOD
+
+
+def corr_clientx_e2e(ctx, res):
+    """(a) the c11e2e builds through the client model"""
+    cases, hout = getattr(ctx, "e2e_runs", ([], []))
+    mlines, where = [], []
+    for ci, c in enumerate(cases):
+        if c["probe"] or ci >= len(hout) or hout[ci].startswith(("ABORT", "HANG")):
+            continue
+        builds = parse_e2e(hout[ci])
+        if builds is None or len(builds) != len(c["snaps"]):
+            continue
+        if c["kind"] == "mutated" and (any(p.endswith(b"/") for b in builds for _, p in b["deplist"]) or
+                                       any(b["status"] not in ("ok", "failed") for b in builds)):
+            continue
+        for bi, (snap, b) in enumerate(zip(c["snaps"], builds)):
+            if not int(b["ran"]) or b["status"] not in ("ok", "failed"):
+                continue
+            mlines += ["node 0 1 0", "cmd 0 0 1 . 0",
+                       "xdepsb 0 %s %s %s" % (c["style"], C.hexs(c["W"]), ",".join("x" if d is None else C.hexs(d) for d in snap)), "evalx"]
+            keys = [p for kd, p in b["deplist"] if kd == "I"]
+            where.append((ci, bi, "C0=%s:%s" % ("ok" if b["status"] == "ok" else "depsfailed", ",".join(C.hexs(x) for x in keys) if keys else ".")))
+    n = 0
+    if where:
+        mrc, mout, merr = run_model("c08xclean", mlines)
+        if mrc != 0 or len(mout) != len(where):
+            if ctx.model_ok:
+                res.mismatches.append({"stream": "clientx", "input": "model driver exit %s, %d/%d lines" % (mrc, len(mout), len(where)), "model": merr[-300:]})
+        else:
+            for (ci, bi, impl), m in zip(where, mout):
+                n += 1
+                if m != impl and len(res.mismatches) < 20:
+                    res.mismatches.append({"stream": "clientx", "input": "build %d of: %s" % (bi + 1, cases[ci]["line"]), "model": m, "impl": impl})
+    return n
+
+
+class CxHistory:
+    """one compile-like history (b)"""
+
+    def __init__(self, base, k, rng, style, ncomp, ndeps, kinds, seed=None, thorough=False):
+        self.seed, self.thorough = seed, thorough
+        self.d = os.path.join(base, "cx%d" % k)
+        self.k, self.rng, self.style, self.ncomp, self.ndeps, self.kinds = k, rng, style, ncomp, ndeps, kinds
+        self.clock = 1
+        self.fails, self.cases, self.trace = [], [], []
+        self.stats = {"builds": 0, "reruns_after_header_change": 0, "null_builds": 0, "failed_exit": 0, "failed_deps": 0, "retried": 0}
+        self.recorded = {}        # command -> set of discovered paths recorded by its last SUCCESSFUL run (None = must run)
+        import shutil
+        shutil.rmtree(self.d, ignore_errors=True)
+        for sub in ("o", "inc", "ctl"):
+            os.makedirs(os.path.join(self.d, sub))
+        self.salt = [3 + 17 * i + k for i in range(ncomp)]
+        open(os.path.join(self.d, "build.llbuild"), "w").write(self.manifest())
+
+    # -- the description -------------------------------------------------------------------------------------
+    def deps_names(self, i):
+        return ["o/C%d.d" % i] + (["o/C%d.d2" % i] if self.ndeps == 2 else [])
+
+    def script(self, i):
+        M = CX_MOD
+        b = "echo C%d >> log; v=$(cat s%d.c) || exit 1; h=$(( (%d*131+v+7) %% %d )); " % (i, i, self.salt[i], M)
+        b += "case $((v % 7)) in 3) exit 3;; esac; "
+        b += "case $((v % 3)) in "
+        for r, (A, B) in CX_SETS.items():
+            b += "%d) A='%s'; B='%s';; " % (r, " ".join(A), " ".join(B))
+        b += "esac; "
+        b += "for p in $A $B; do if [ -e $p ]; then w=$(cat $p); h=$(( (h*131+w+1+7) %% %d )); else h=$(( (h*131+7) %% %d )); fi; done; " % (M, M)
+        b += "echo $(( (h*131+7) %% %d )) > o/C%d.o; touch -d @$((%d+$(cat ctl/clock))) o/C%d.o; " % (M, i, CX_BASE_T, i)
+        names = self.deps_names(i)
+        lists = ["$A $B"] if self.ndeps == 1 else ["$A", "$B"]
+        for nm, L in zip(names, lists):
+            if self.style == "dependency-info":
+                b += "{ printf '\\000v1\\000'; for p in %s; do printf '\\020%%s\\000' $p; done; } > %s; " % (L, nm)
+            else:
+                b += "echo o/C%d.o: %s > %s; " % (i, L, nm)
+        # faults of the dependency files, as a function of the source read
+        if self.style == "dependency-info":
+            bad = "printf '\\101zz\\000' >> %s" % names[0]
+        else:
+            bad = "echo o/C%d.o: $A '$(BAD)' > %s" % (i, names[0])
+        b += "case $((v %% 11)) in 5) rm -f %s;; 6) %s;; 7) rm -f %s;; esac; true" % (names[0], bad, names[-1])
+        return b
+
+    def manifest(self):
+        q = lambda t: '"' + t.replace("\\", "\\\\").replace('"', '\\"') + '"'
+        L = ["client:", "  name: basic", "  version: 0", "", "targets:", '  "": ["o/prog"]', "", "commands:"]
+        for i in range(self.ncomp):
+            L += ['  "C%d":' % i, "    tool: shell", '    inputs: ["s%d.c"]' % i, '    outputs: ["o/C%d.o"]' % i,
+                  "    args: [\"/bin/sh\", \"-c\", %s]" % q(self.script(i)),
+                  "    deps: [%s]" % ", ".join(q(n) for n in self.deps_names(i)), "    deps-style: %s" % self.style]
+        objs = ["o/C%d.o" % i for i in range(self.ncomp)]
+        link = "echo L >> log; h=%d; " % (1000 + self.k)
+        for o in objs:
+            link += "v=$(cat %s) || exit 1; h=$(( (h*131+v+7) %% %d )); " % (o, CX_MOD)
+        link += "echo $(( (h*131+7) %% %d )) > o/prog; touch -d @$((%d+$(cat ctl/clock))) o/prog" % (CX_MOD, CX_BASE_T)
+        L += ['  "L":', "    tool: shell", "    inputs: [%s]" % ", ".join(q(o) for o in objs), '    outputs: ["o/prog"]',
+              "    args: [\"/bin/sh\", \"-c\", %s]" % q(link)]
+        return "\n".join(L) + "\n"
+
+    # -- file-system edits (observable: mtimes from a logical clock) ----------------------------------------------
+    def write(self, rel, val):
+        p = os.path.join(self.d, rel)
+        with open(p, "w") as f:
+            f.write("%d\n" % val)
+        self.clock += 1
+        t = (CX_BASE_T + self.clock) * 10**9
+        os.utime(p, ns=(t, t))
+        self.trace.append("write %s %d" % (rel, val))
+
+    def remove(self, rel):
+        os.unlink(os.path.join(self.d, rel))
+        self.trace.append("remove %s" % rel)
+
+    def value(self, rel):
+        try:
+            return int(open(os.path.join(self.d, rel)).read())
+        except (OSError, ValueError):
+            return None
+
+    def pick(self, r3, fail=False, fault=None):
+        """a source content with the wanted include set (v % 3), exit behaviour (v % 7 == 3) and deps-file fault (v % 11)"""
+        while True:
+            v = 1 + self.rng.below(100000)
+            if v % 3 == r3 and (v % 7 == 3) == fail and (v % 11 == fault if fault is not None else v % 11 not in (5, 6, 7)):
+                return v
+
+    def bad(self, what, **kw):
+        f = {"what": "[clientx history %d, %s, %d deps file(s)] %s" % (self.k, self.style, self.ndeps, what), "stream": "clientx",
+             "style": self.style, "input": {"stream": "clientx", "k": self.k, "seed": self.seed, "thorough": self.thorough,
+                                             "trace": list(self.trace)}}
+        f.update(kw)
+        self.fails.append(f)
+
+    # -- one build -------------------------------------------------------------------------------------------
+    def build(self, client, jobs, expect_run=None, expect_not=None, why=""):
+        self.clock += 1
+        open(os.path.join(self.d, "ctl", "clock"), "w").write("%d\n" % self.clock)
+        failed, log, out = client.build(self.d, jobs)
+        self.stats["builds"] += 1
+        self.trace.append("build -> %s log=%s" % (out, log))
+        for nm in set(log):
+            if log.count(nm) > 1:
+                self.bad("command %s executed %d times in one build" % (nm, log.count(nm)), kind="clientx-twice")
+        for nm in expect_run or []:
+            if nm not in log:
+                self.bad("%s: command %s was NOT re-executed" % (why, nm), kind="clientx-not-rerun")
+        for nm in expect_not or []:
+            if nm in log:
+                self.bad("%s: command %s was re-executed although nothing it depends on changed" % (why, nm), kind="clientx-spurious-rerun")
+        # the model's view of this state ------------------------------------------------------------------------
+        import sqlite3
+        from .c10 import db_snapshot
+        nodes = ["s%d.c" % i for i in range(self.ncomp)] + CX_HEADERS + ["o/C%d.o" % i for i in range(self.ncomp)] + ["o/prog"]
+        idx = {n: i for i, n in enumerate(nodes)}
+        absd = os.path.realpath(self.d).encode()
+        L = []
+        for n in nodes:
+            v = self.value(n) if not n.startswith("o/") else None
+            L.append("node %d 0 %d" % (idx[n], 0 if v is None else v + 1))
+            L.append("path %d %s" % (idx[n], C.hexs(absd + b"/" + n.encode())))
+        expect_failed = {}
+        for i in range(self.ncomp):
+            L.append("cmd %d 0 %d %d %d" % (i, self.salt[i], idx["s%d.c" % i], idx["o/C%d.o" % i]))
+            v = self.value("s%d.c" % i)
+            if v is not None and v % 7 == 3:
+                L.append("xfail %d 1" % i)
+            files = []
+            for nm in self.deps_names(i):
+                try:
+                    files.append(C.hexs(open(os.path.join(self.d, nm), "rb").read()))
+                except OSError:
+                    files.append("x")
+            L.append("xdepsb %d %s %s %s" % (i, self.style, C.hexs(absd), ",".join(files)))
+        L.append("cmd %d 0 %d %s %d" % (self.ncomp, 1000 + self.k, ",".join(str(idx["o/C%d.o" % i]) for i in range(self.ncomp)), idx["o/prog"]))
+        L.append("evalx")
+        try:
+            snap = db_snapshot(os.path.join(self.d, "build.db"), self.kinds)
+        except sqlite3.Error as e:
+            self.bad("build database not readable: %s" % e, kind="clientx-harness")
+            return failed, log
+        from .c10 import STATUS_OF_KIND
+        toks = []
+        names = ["C%d" % i for i in range(self.ncomp)] + ["L"]
+        ins = [["s%d.c" % i] for i in range(self.ncomp)] + [["o/C%d.o" % i for i in range(self.ncomp)]]
+        status = {}
+        for ci, (nm, want) in enumerate(zip(names, ins)):
+            kind, deps = snap.get(b"C" + nm.encode(), ("<no record>", []))
+            extra = list(deps)
+            for w in want:
+                w = b"N" + w.encode()
+                if w in extra:
+                    extra.remove(w)
+                else:
+                    extra.append(b"N<missing request " + w + b">")
+            st = STATUS_OF_KIND.get(kind, kind)
+            status[nm] = (st, [x[1:] for x in extra])
+            toks.append("C%d=%s:%s" % (ci, st, ",".join(C.hexs(x[1:]) for x in extra) if extra else "."))
+        for n in nodes:
+            if n.startswith("o/"):
+                kind, _ = snap.get(b"N" + n.encode(), ("<no record>", []))
+                toks.append("%d=%s" % (idx[n], "failed" if kind == "FailedInput" else str(self.value(n)) if kind == "ExistingInput" else kind))
+        impl = " ".join(toks)
+        self.cases.append((L, impl, list(self.trace[-6:])))
+        # bookkeeping for the property oracle: what each command's last successful run recorded
+        for i in range(self.ncomp):
+            nm = "C%d" % i
+            st, extra = status[nm]
+            if st == "ok":
+                if nm in log or nm not in self.recorded or self.recorded[nm] is None:
+                    self.recorded[nm] = set(extra)
+            else:
+                self.recorded[nm] = None
+                self.stats["failed_exit" if (self.value("s%d.c" % i) or 0) % 7 == 3 else "failed_deps"] += 1
+        if bool(failed) != any(status[nm][0] != "ok" for nm in names):
+            self.bad("the build reports %s (%s) but the recorded command results are %s" % (
+                "failure" if failed else "success", out, {n: status[n][0] for n in names}), kind="clientx-build-status")
+        return failed, log
+
+
+def cx_history(exe, base, k, rng, thorough, kinds, seed=None):
+    from .c10 import InProc
+    style = E2E_STYLES[k % 3]
+    ncomp = 1 + (k // 3) % 3
+    ndeps = 1 + (k // 9) % 2
+    w = CxHistory(base, k, rng, style, ncomp, ndeps, kinds, seed, thorough)
+    client = InProc(exe)
+    try:
+        jobs = lambda: 1 if rng.chance(1, 2) else 4
+        absd = os.path.realpath(w.d).encode()
+        for h in CX_HEADERS:
+            if rng.chance(4, 5):
+                w.write(h, 1 + rng.below(1000))
+        for i in range(ncomp):
+            w.write("s%d.c" % i, w.pick(rng.below(3)))
+        allc = ["C%d" % i for i in range(ncomp)]
+        w.build(client, jobs(), expect_run=allc + ["L"], why="first build")
+        w.build(client, jobs(), expect_not=allc + ["L"], why="null build")
+        w.stats["null_builds"] += 1
+        for step in range(10 if thorough else 6):
+            i = rng.below(ncomp)
+            nm = "C%d" % i
+            r = rng.below(9)
+            rec = w.recorded.get(nm)
+            listed = sorted(rec) if rec else []
+            if r < 3 and listed:
+                # a recorded discovered path changes: edit / delete / create
+                p = rng.choice(listed)
+                rel = os.path.relpath(p, absd).decode()
+                if os.path.exists(os.path.join(w.d, rel)) and rng.chance(1, 3):
+                    w.remove(rel)
+                else:
+                    w.write(rel, 1 + rng.below(1000))
+                must = [c for c in allc if w.recorded.get(c) and p in w.recorded[c]]
+                others = [c for c in allc if w.recorded.get(c) is not None and p not in w.recorded[c]]
+                w.build(client, jobs(), expect_run=must, expect_not=others, why="change of %s, a discovered dependency recorded for %s" % (rel, must))
+                w.stats["reruns_after_header_change"] += len(must)
+            elif r == 3:
+                # a header that is NOT recorded for anybody changes: nothing re-runs
+                free = [h for h in CX_HEADERS if all(not w.recorded.get(c) or (absd + b"/" + h.encode()) not in w.recorded[c] for c in allc)
+                        and all(w.recorded.get(c) is not None for c in allc)]
+                if free:
+                    w.write(rng.choice(free), 1 + rng.below(1000))
+                    w.build(client, jobs(), expect_not=allc + ["L"], why="change of a header no command lists")
+                    w.stats["null_builds"] += 1
+            elif r == 4:
+                # the source changes so that the command lists another set of headers
+                old = w.value("s%d.c" % i)
+                w.write("s%d.c" % i, w.pick(((old or 0) + 1) % 3))
+                w.build(client, jobs(), expect_run=[nm], why="source of %s edited" % nm)
+            elif r == 5:
+                # the command exits with a non-zero status; it is retried; then repaired
+                keep = w.value("s%d.c" % i) or 0
+                w.write("s%d.c" % i, w.pick(keep % 3, fail=True))
+                w.build(client, jobs(), expect_run=[nm], expect_not=["L"], why="%s exits with status 3" % nm)
+                w.build(client, jobs(), expect_run=[nm], expect_not=["L"], why="%s failed in the previous build: retried" % nm)
+                w.stats["retried"] += 1
+                w.write("s%d.c" % i, w.pick(keep % 3))
+                w.build(client, jobs(), expect_run=[nm, "L"], why="%s repaired" % nm)
+            elif r in (6, 7, 8):
+                # a dependency file is missing (first / last of the list) or malformed behind its first words
+                fault = {6: 5, 7: 6, 8: 7}[r]
+                keep = w.value("s%d.c" % i) or 0
+                w.write("s%d.c" % i, w.pick(keep % 3, fault=fault))
+                w.build(client, jobs(), expect_run=[nm], expect_not=["L"], why="dependency file of %s %s" % (nm, {5: "missing (first)", 6: "malformed", 7: "missing (last)"}[fault]))
+                w.build(client, jobs(), expect_run=[nm], expect_not=["L"], why="%s failed in the previous build: retried" % nm)
+                w.stats["retried"] += 1
+                w.write("s%d.c" % i, w.pick(keep % 3))
+                w.build(client, jobs(), expect_run=[nm, "L"], why="%s repaired" % nm)
+            if rng.chance(1, 2) and all(w.recorded.get(c) is not None for c in allc):
+                w.build(client, jobs(), expect_not=allc + ["L"], why="null build")
+                w.stats["null_builds"] += 1
+    finally:
+        client.close()
+        import shutil
+        shutil.rmtree(w.d, ignore_errors=True)
+    return w
+
+
+def probe_discovered_generated_header(exe, base):
+    """What `DiscsAreSources` (Props/C08X.lean) excludes, on the real tool: a command DISCOVERS a path that another command produces
+    (a generated header nobody declares).  The engine brings the header up to date only after the discovering command ran, so the
+    result depends on the order of events and an incremental build differs from a clean one.  Executed, counted, NOT judged (the
+    description is under-specified by the tool's own account: BuildEngine.cpp `FIXME: ... an underspecified build (e.g., a generated
+    header)`).  Returns a dict for the evidence."""
+    import shutil
+    from .c10 import InProc
+    d = os.path.join(base, "cx-genhdr")
+    shutil.rmtree(d, ignore_errors=True)
+    os.makedirs(os.path.join(d, "o"))
+    absd = os.path.realpath(d)
+    gen = absd + "/o/gen.h"
+    open(os.path.join(d, "build.llbuild"), "w").write(
+        'client:\n  name: basic\n  version: 0\n\ntargets:\n  "": ["o/obj"]\n\ncommands:\n'
+        '  "G":\n    tool: shell\n    inputs: ["g.src"]\n    outputs: ["%s"]\n    args: ["/bin/sh", "-c", "echo G >> log; cat g.src > o/gen.h"]\n'
+        '  "C":\n    tool: shell\n    inputs: ["c.src"]\n    outputs: ["o/obj"]\n'
+        '    args: ["/bin/sh", "-c", "echo C >> log; cat c.src o/gen.h > o/obj 2>/dev/null; echo o/obj: o/gen.h > o/c.d"]\n'
+        '    deps: "o/c.d"\n    deps-style: makefile\n' % gen)
+
+    def wr(rel, txt, t):
+        p = os.path.join(d, rel)
+        open(p, "w").write(txt)
+        os.utime(p, ns=((CX_BASE_T + t) * 10**9,) * 2)
+    wr("g.src", "g1\n", 1)
+    wr("c.src", "c1\n", 2)
+    cl = InProc(exe)
+    out = {}
+    try:
+        r1 = cl.build(d, 1)
+        obj1 = open(os.path.join(d, "o", "obj")).read()
+        r2 = cl.build(d, 1)
+        wr("g.src", "g2, longer\n", 3)
+        r3 = cl.build(d, 1)
+        obj3 = open(os.path.join(d, "o", "obj")).read()
+        # the clean build of the final sources
+        c = d + "-clean"
+        shutil.rmtree(c, ignore_errors=True)
+        os.makedirs(os.path.join(c, "o"))
+        shutil.copy(os.path.join(d, "build.llbuild"), c)
+        txt = open(os.path.join(c, "build.llbuild")).read().replace(absd, os.path.realpath(c))
+        open(os.path.join(c, "build.llbuild"), "w").write(txt)
+        shutil.copy2(os.path.join(d, "g.src"), c)
+        shutil.copy2(os.path.join(d, "c.src"), c)
+        rc = cl.build(c, 1)
+        objc = open(os.path.join(c, "o", "obj")).read()
+        out = {"first_build": [r1[0], r1[1]], "null_build": [r2[0], r2[1]], "after_editing_the_generator_source": [r3[0], r3[1]],
+               "object_after_first_build": obj1, "object_after_incremental_build": obj3, "object_of_clean_build": objc,
+               "incremental_differs_from_clean": obj3 != objc}
+        shutil.rmtree(c, ignore_errors=True)
+    finally:
+        cl.close()
+        shutil.rmtree(d, ignore_errors=True)
+    return out
+
+
+def corr_clientx(ctx, res):
+    import threading
+    from .c10 import generated_names
+    n_e2e = corr_clientx_e2e(ctx, res)
+    exe = ctx.exe[("vc10", "plain")]
+    base = os.path.join(C.BUILD, "scratch", "c11-clientx-%d" % os.getpid())
+    os.makedirs(base, exist_ok=True)
+    kinds = generated_names()[0]
+    n = 108 if ctx.thorough else 27
+    seeds = [ctx.rng.next() for _ in range(n)]
+    worlds, errs = [None] * n, []
+    nxt, lock = [0], threading.Lock()
+
+    def worker():
+        while True:
+            with lock:
+                i = nxt[0]
+                nxt[0] += 1
+            if i >= n:
+                return
+            try:
+                worlds[i] = cx_history(exe, base, i, C.Rng(seeds[i], "C11cx"), ctx.thorough, kinds, seeds[i])
+            except Exception as e:
+                import traceback
+                errs.append("history %d: %s\n%s" % (i, e, traceback.format_exc()[-600:]))
+    ts = [threading.Thread(target=worker) for _ in range(8)]
+    [t.start() for t in ts]
+    [t.join() for t in ts]
+    for e in errs[:5]:
+        res.mismatches.append({"stream": "clientx", "input": e[-500:], "model": "", "impl": "harness exception: " + e[:200]})
+    tot = {}
+    cases = []
+    for w in worlds:
+        if w is None:
+            continue
+        res.oracle_failures += w.fails
+        for k, v in w.stats.items():
+            tot[k] = tot.get(k, 0) + v
+        cases += w.cases
+    ncmp = ncmd = nkeys = 0
+    if cases:
+        mrc, mout, merr = run_model("c08xclean", [l for c in cases for l in c[0]])
+        if mrc != 0 or len(mout) != len(cases):
+            if ctx.model_ok:
+                res.mismatches.append({"stream": "clientx", "input": "model driver exit %s, %d/%d lines" % (mrc, len(mout), len(cases)), "model": merr[-300:]})
+        else:
+            for (ls, impl, tr), m in zip(cases, mout):
+                m = m.replace("=depsfailed:", "=failed:")      # the database has one kind (FailedCommand) for both causes
+                ncmp += 1
+                ncmd += sum(1 for t in impl.split() if t.startswith("C"))
+                nkeys += sum(len(t.partition(":")[2].split(",")) for t in impl.split() if t.startswith("C") and not t.endswith(":."))
+                if m != impl and len(res.mismatches) < 20:
+                    res.mismatches.append({"stream": "clientx", "input": {"ops": ls, "last_steps": tr}, "model": m, "impl": impl})
+    try:
+        probe = probe_discovered_generated_header(exe, base)
+    except Exception as e:
+        probe = {"error": str(e)}
+    import shutil
+    shutil.rmtree(base, ignore_errors=True)
+    res.evaluations += tot.get("builds", 0)
+    res.distinct_nontrivial += tot.get("reruns_after_header_change", 0) + tot.get("retried", 0)
+    res.distribution["clientx"] = dict(tot, histories=n, e2e_builds_compared_with_client_model=n_e2e, builds_compared_with_client_model=ncmp,
+                                       command_records_compared=ncmd, discovered_keys_compared=nkeys,
+                                       probe_discovered_generated_header_not_judged=probe)
 
 
 C19_DEPS_THEOREMS = [
@@ -1038,22 +1478,36 @@ class Check(PropertyCheck):
         "LLBuild.ShellDeps.C11_success_registers_every_file", "LLBuild.ShellDeps.C11_succeeded_only_if_processed",
         # engine half: a recorded discovered dependency whose external value changed can never be declared up to date
         "LLBuild.Engine.C11_discovered_change_not_up_to_date",
+        # ... instantiated for the BuildSystem's rule set with discovered dependencies (Props/C08X.lean, Model/BuildSystemClientX.lean)
+        "LLBuild.BuildSystemClient.C11_client_honoured", "LLBuild.BuildSystemClient.C11_client_discovered_recorded",
+        "LLBuild.BuildSystemClient.C11_client_discovered_only_on_success", "LLBuild.BuildSystemClient.C11_client_missing_depsfile_fails",
+        "LLBuild.BuildSystemClient.C11_client_keys_are_parsed_keys",
     ] + C19_DEPS_THEOREMS
-    extractors = ["x_depsparsers"]
+    # x_bsrules: Props/C08X.lean quantifies over the generated rule tables of the C08 client model
+    extractors = ["x_depsparsers", "x_bsrules", "x_failtables", "x_enginefp"]
     impl_cfgs = ["plain", "asan"]
-    harnesses = [(HARNESS, "plain"), (HARNESS, "asan")]
+    # vc10 (C10's harness): its `c10build` mode is the in-process keep-going client of the `clientx` histories
+    harnesses = [(HARNESS, "plain"), (HARNESS, "asan"), ("vc10", "plain")]
     assumptions = [
         "hand model of MakefileDepsParser / DependencyInfoParser / processDiscoveredDependencies, tied by differential correspondence "
         "(action streams compared verbatim on valid, truncated-at-every-prefix, mutated and exhaustive small inputs; ASan+UBSan build, exact-size heap buffers)",
         "the working directory of the command is set and absolute (configureAttribute makes it so); with no working-directory attribute "
         "make_absolute resolves against the process's current directory, which is not modelled",
         "llvm::sys::path::append / is_absolute (POSIX style) are modelled for one component and corresponded, not proved",
-        "the end-to-end clause (touching a discovered path re-executes the command) is, as a theorem, an instance of the engine theorem decided elsewhere; "
-        "here it is checked on the real code by the c11e2e histories (oracle only)",
+        "the end-to-end clause (touching a discovered path re-executes the command) is a theorem about traces accepted by the abstract engine "
+        "(C11_discovered_change_not_up_to_date), instantiated for the BuildSystem's rule set with discovered dependencies (C11_client_honoured, "
+        "C11_client_discovered_recorded over Model/BuildSystemClientX.lean; hypotheses: DiscsAreSources - every path a command can report is a "
+        "source file of the description -, the F22 ghost flag of C01 clear, the discovered list a function of the contents of the declared "
+        "inputs); safety form (no accepted history declares the command up to date), the engine model has no liveness; on the real code it is "
+        "checked by the c11e2e histories (oracle) and by the `clientx` stream (the discovered keys and value kinds the engine records in "
+        "build.db against the client model)",
         "dependency-info input records: the model follows the extracted fingerprint shDepInfoInputResolved (unrepaired code: the operand is the key as "
         "it is, i.e. a relative path is relative to the process's directory, finding F41; such cases are probed and counted, not judged, until the fix is in)",
     ]
     trusted_base = ["extractor x_depsparsers (character classes, escape set, comment loop operator, bounds guards, opcode enum)",
+                    "extractors x_bsrules, x_failtables, x_enginefp and the hand models Model/Engine.lean, Model/BuildSystemClient.lean, "
+                    "Model/BuildSystemClientX.lean for the engine-level theorems (C11_client_*); harness vc10 (keep-going client) and the build.db "
+                    "decoder of the `clientx` stream",
                     "correspondence harness vc11 (makedeps, depinfo, resolve, c11bs, c11e2e) and its generators",
                     "python oracles (escape/mk_file/resolve_spec restated independently; sanitizer reports; watchdog)"]
 
@@ -1066,6 +1520,20 @@ class Check(PropertyCheck):
         inp = f.get("input", {})
         if inp.get("stream") == "c11e2e":
             return self.replay_e2e(ctx, res, f)
+        if inp.get("stream") == "clientx" and inp.get("seed") is not None:
+            # one recorded compile-like history, generated again from its seed and judged again (property oracle only)
+            from .c10 import generated_names
+            base = os.path.join(C.BUILD, "scratch", "c11-clientx-replay-%d" % os.getpid())
+            os.makedirs(base, exist_ok=True)
+            w = cx_history(ctx.exe[("vc10", "plain")], base, inp["k"], C.Rng(inp["seed"], "C11cx"), bool(inp.get("thorough")),
+                           generated_names()[0], inp["seed"])
+            C.log("replay clientx history %d: %d builds, %d failures\n  %s" % (inp["k"], w.stats["builds"], len(w.fails), "\n  ".join(w.trace[-12:])))
+            res.evaluations += w.stats["builds"]
+            res.oracle_failures += w.fails
+            res.rule = "replay of one recorded history"
+            import shutil
+            shutil.rmtree(base, ignore_errors=True)
+            return
         if "line" in inp:
             mode, hmode, cfg, line, extra = "c11bs", "c11bs", "plain", inp["line"], [os.path.join(C.BUILD, "scratch")]
         elif "wd" in inp:
@@ -1119,6 +1587,7 @@ class Check(PropertyCheck):
         corr_resolve(ctx, res)
         corr_buildsystem(ctx, res)
         corr_e2e(ctx, res)
+        corr_clientx(ctx, res)
         res.rule = ("Makefile deps: files written by mk_file over an alphabet with every special character (plain / decorated with comments and "
                     "blank space / without final newline / ignoreSubsequentOutputs), every proper prefix of each of the first valid files, seeded "
                     "mutations, and every string over 8 structural bytes up to a length bound; dependency-info likewise (plus files with extra "
@@ -1135,7 +1604,16 @@ class Check(PropertyCheck):
                     "creation or deletion of a listed path (one of EVERY file of the list, resolved against the command's working directory by the "
                     "oracle) re-executes the command, also for paths listed only since the previous run, and a build with no change does not; "
                     "the discovered keys are the listed paths.  Each build in which the command ran is also compared with the Lean model "
-                    "(c11bsl: ShellDeps.completion / discoveredKeys on the files as they were).  Non-trivial = verified re-executions + failed builds.")
+                    "(c11bsl: ShellDeps.completion / discoveredKeys on the files as they were).  Non-trivial = verified re-executions + failed builds.  "
+                    "CLIENTX: (a) each of those builds again through the extended client model (c08xclean: dependency-file bytes -> absDepsFile -> "
+                    "processDeps -> runX: how the execution ends, which keys go to the engine); (b) 27 (thorough 108) histories of 1-3 compile-like "
+                    "shell commands + a link step through an in-process keep-going client: the commands write their own dependency files (3 styles, "
+                    "1-2 files) listing a set of headers that is a function of the source they read, exit non-zero / leave no / a malformed "
+                    "dependency file for certain sources; edits, deletions, creations of recorded and unrecorded headers, source edits that "
+                    "change the include set, failures, retries, repairs, null builds, serial and 4 lanes; after EVERY build the value kind and the "
+                    "dependency list of every command in build.db and the contents of every output are compared with the model's clean "
+                    "evaluation, and the property is evaluated by python (re-run iff a recorded discovered path changed, failed commands "
+                    "retried, dependents of a failed command not run); one probe (discovered GENERATED header) is executed and counted, not judged.")
 
     def search(self, ctx, res, why):
         return
